@@ -117,7 +117,7 @@ struct TokFtor
 
 // ---------------------------------------------------------------------------------------------
 // instrumented value types
-#define SIM_NODE_COMMON(Self)                                                                        \
+#define SIM_NODE_COMMON(Self, NOEXCEPT_MOVE, KEEPS_KIDS)                                                                        \
     int rule = -1;                                                                                   \
     uint64_t digest = 0;                                                                             \
     uint64_t sdigest = 0; /* structure only: no source points */                                     \
@@ -128,13 +128,13 @@ struct TokFtor
     std::vector<Self> kids;                                                                          \
     Self() : digest(empty_default_digest()), sdigest(empty_default_digest()), text("()") { vid = simrt::node_new(this); } \
     ~Self() { simrt::node_del(this, vid, !mf); }                                                     \
-    Self(Self&& o) noexcept                                                                          \
+    Self(Self&& o) noexcept(NOEXCEPT_MOVE)                                                           \
         : rule(o.rule), digest(o.digest), sdigest(o.sdigest), vid(o.vid), mf(o.mf), depth(o.depth), text(std::move(o.text)), kids(std::move(o.kids)) \
     {                                                                                                \
         o.mf = true;                                                                                 \
         simrt::node_move(this, vid);                                                                 \
     }                                                                                                \
-    Self& operator=(Self&& o) noexcept                                                               \
+    Self& operator=(Self&& o) noexcept(NOEXCEPT_MOVE)                                                \
     {                                                                                                \
         if (this == &o) return *this;                                                                \
         simrt::node_assign_over(this, vid, !mf);                                                     \
@@ -145,6 +145,7 @@ struct TokFtor
         return *this;                                                                                \
     }                                                                                                \
     static constexpr bool keeps_text = true;                                                         \
+    static constexpr bool keeps_kids = KEEPS_KIDS;                                                   \
     static constexpr bool is_ledgered = true;                                                        \
     uint64_t get_digest() const { return digest; }                                                   \
     uint64_t get_sdigest() const { return sdigest; }
@@ -152,7 +153,7 @@ struct TokFtor
 // copyable: a library-side copy is possible and is what the ledger must report
 struct Node
 {
-    SIM_NODE_COMMON(Node)
+    SIM_NODE_COMMON(Node, true, true)
     Node(const Node& o) : rule(o.rule), digest(o.digest), sdigest(o.sdigest), mf(o.mf), depth(o.depth), text(o.text), kids(o.kids)
     {
         vid = simrt::node_copy(this, o.vid);
@@ -170,9 +171,29 @@ struct Node
 // move-only: must compile and work (C14 "move-only value types work")
 struct MNode
 {
-    SIM_NODE_COMMON(MNode)
+    SIM_NODE_COMMON(MNode, true, true)
     MNode(const MNode&) = delete;
     MNode& operator=(const MNode&) = delete;
+};
+
+// copyable, but its move constructor may throw (like std::deque, or a user type whose move lacks noexcept): the value
+// variant's move is then not noexcept either, which is what std::move_if_noexcept-style code keys on. It keeps no
+// children (a std::vector of it would itself copy on growth).
+struct XNode
+{
+    SIM_NODE_COMMON(XNode, false, false)
+    XNode(const XNode& o) : rule(o.rule), digest(o.digest), sdigest(o.sdigest), mf(o.mf), depth(o.depth), text(o.text), kids(o.kids)
+    {
+        vid = simrt::node_copy(this, o.vid);
+    }
+    XNode& operator=(const XNode& o)
+    {
+        if (this == &o) return *this;
+        simrt::node_assign_over(this, vid, !mf);
+        rule = o.rule; digest = o.digest; sdigest = o.sdigest; mf = o.mf; depth = o.depth; text = o.text; kids = o.kids;
+        vid = simrt::node_copy(this, o.vid);
+        return *this;
+    }
 };
 
 // trivially destructible fixed-size value: selects the cvector *value* stack for cstring_buffer
@@ -228,14 +249,41 @@ namespace detail
                 if (v.text.size() + child.text.size() < 4096) { v.text += " "; v.text += child.text; }
                 else if (v.text.size() < 4096 + 8) v.text += " ...";
                 // kids are kept for a realistic object graph, to a bounded depth: destruction is recursive
-                if (child.depth < 1500)
-                {
-                    if (child.depth + 1 > v.depth) v.depth = child.depth + 1;
-                    v.kids.push_back(std::move(child));
-                }
+                if constexpr (V::keeps_kids)
+                    if (child.depth < 1500)
+                    {
+                        if (child.depth + 1 > v.depth) v.depth = child.depth + 1;
+                        v.kids.push_back(std::move(child));
+                    }
             }
             ++n;
         }
+        // a list built by the library's helper functors (ftors::create / emplace_back): every element is consumed here
+        void add(std::vector<V>&& lst)
+        {
+            uint64_t hl = list_digest_begin(), hls = hl;
+            if constexpr (V::keeps_text) if (v.text.size() < 4096) v.text += " [";
+            for (V& e : lst)
+            {
+                if constexpr (V::is_ledgered) simrt::node_use(e.vid, e.mf);
+                hl = list_digest_add(hl, e.get_digest());
+                hls = list_digest_add(hls, e.get_sdigest());
+                if constexpr (V::keeps_text)
+                {
+                    if (v.text.size() + e.text.size() < 4096) { v.text += " "; v.text += e.text; }
+                    if constexpr (V::keeps_kids)
+                        if (e.depth < 1500)
+                        {
+                            if (e.depth + 1 > v.depth) v.depth = e.depth + 1;
+                            v.kids.push_back(std::move(e));
+                        }
+                }
+            }
+            h = node_digest_add(h, hl);
+            hs = node_digest_add(hs, hls);
+            ++n;
+        }
+        void add(std::vector<V>& lst) { std::vector<V> tmp(std::move(lst)); if constexpr (V::is_ledgered) simrt::node_lvalue_arg(0); add(std::move(tmp)); }
         // a value that arrives as an lvalue cannot be taken by a by-value parameter without a copy (and not at all
         // when it is move-only): behave like such a functor would
         void add(V& child)
@@ -300,9 +348,11 @@ struct MkCtx
     V operator()(C&& c, A&&... a) const
     {
         int touched = ctx_touch(std::forward<C>(c), Rule);
+        // 1: not a SimCtx (plain parse), 2: SimCtx received as an lvalue, 3: SimCtx received as an rvalue (temporary context)
+        int category = touched ? (std::is_lvalue_reference_v<C> ? 2 : 3) : 1;
         detail::Builder<V> b(Rule);
         (b.add(std::forward<A>(a)), ...);
-        return b.finish(1 + touched);
+        return b.finish(category);
     }
 };
 
